@@ -185,9 +185,74 @@ theorem LineOK.of_helpP {pre : Str} {d : GenDefault} {l : Str} (h : HelpP l) : L
 
 theorem lineOK_nil {pre : Str} {d : GenDefault} : LineOK pre d [] := ⟨Or.inl rfl, noBreak_nil⟩
 
+theorem isBreak_range (c : Char) (h : isBreak c = true) : c.toNat < 32 ∨ 126 < c.toNat := by
+  simp only [isBreak, Bool.or_eq_true, decide_eq_true_eq] at h
+  rcases h with ((((((((rfl | rfl) | rfl) | rfl) | rfl) | rfl) | rfl) | rfl) | rfl) | rfl <;> decide
+
+theorem hexDigit_noBreak (n : Nat) : isBreak (hexDigit n) = false := by
+  unfold hexDigit
+  split <;> decide
+
+theorem noBreak_u4 (n : Nat) : NoBreak (u4 n) := by
+  intro c hc
+  simp only [u4, List.mem_cons, List.mem_nil_iff, or_false] at hc
+  rcases hc with rfl | rfl | rfl | rfl | rfl | rfl
+  · decide
+  · decide
+  all_goals exact hexDigit_noBreak _
+
+/-- whatever the character, what `json.dumps` writes for it contains no line break -/
+theorem noBreak_jsonEscChar (c : Char) : NoBreak (jsonEscChar c) := by
+  unfold jsonEscChar
+  split
+  · intro x hx; simp at hx; rcases hx with rfl | rfl <;> decide
+  split
+  · intro x hx; simp at hx; rcases hx with rfl | rfl <;> decide
+  split
+  · intro x hx; simp at hx; rcases hx with rfl | rfl <;> decide
+  split
+  · intro x hx; simp at hx; rcases hx with rfl | rfl <;> decide
+  split
+  · intro x hx; simp at hx; rcases hx with rfl | rfl <;> decide
+  split
+  · intro x hx; simp at hx; rcases hx with rfl | rfl <;> decide
+  split
+  · intro x hx; simp at hx; rcases hx with rfl | rfl <;> decide
+  split
+  · rename_i h
+    intro x hx
+    simp only [List.mem_cons, List.mem_nil_iff, or_false] at hx
+    subst hx
+    cases hb : isBreak x with
+    | false => rfl
+    | true => have := isBreak_range x hb; omega
+  split
+  · exact noBreak_u4 _
+  · exact noBreak_append_iff.2 ⟨noBreak_u4 _, noBreak_u4 _⟩
+
+/-- the formatted check string never contains a line break when the check string has none (and an escaped one never
+does, whatever the check string) -/
+theorem noBreak_formatCheckStr {s : Str} (hs : NoBreak s) : NoBreak (formatCheckStr s) := by
+  unfold formatCheckStr
+  split
+  · refine noBreak_cons_iff.2 ⟨by decide, noBreak_append_iff.2 ⟨?_, by simp [NoBreak, isBreak]⟩⟩
+    intro x hx
+    obtain ⟨c, -, hxc⟩ := List.mem_flatMap.1 hx
+    exact noBreak_jsonEscChar c x hxc
+  · exact noBreak_q.2 hs
+
+theorem noBreak_formatCheckStr_escaped (s : Str) (h : needsEscape s = true) : NoBreak (formatCheckStr s) := by
+  unfold formatCheckStr
+  rw [if_pos h]
+  refine noBreak_cons_iff.2 ⟨by decide, noBreak_append_iff.2 ⟨?_, by simp [NoBreak, isBreak]⟩⟩
+  intro x hx
+  obtain ⟨c, -, hxc⟩ := List.mem_flatMap.1 hx
+  exact noBreak_jsonEscChar c x hxc
+
 theorem noBreak_ruleText {d : GenDefault} (hd : d.Printable) : NoBreak (ruleText d) := by
   obtain ⟨hn, hc, -⟩ := hd
-  simp [ruleText, noBreak_append_iff, noBreak_cons_iff, noBreak_q, hn, hc, isBreak]
+  have hf := noBreak_formatCheckStr hc
+  simp [ruleText, noBreak_append_iff, noBreak_cons_iff, noBreak_q, hn, hf, isBreak]
 
 theorem opLines_ok {d : GenDefault} (hd : d.Printable) : ∀ l ∈ opLines d, HelpP l := by
   obtain ⟨-, -, -, hops, -⟩ := hd
